@@ -100,6 +100,72 @@ id or by object -/
 theorem runForwardOn_eq (net : Net W) (flags : Option (St W)) (s : NodeArg) (t : Option NodeArg) (cut : Option W) :
     runForwardOn net flags s t cut = runForward net (correctInputNode s) (t.map correctInputNode) cut := rfl
 
+
+/-! ### invariant of a session -/
+section session
+variable {W : Type} [AddCommMonoid W] [LinearOrder W] [IsOrderedAddMonoid W]
+
+/-- the flags a session leaves on the nodes are those of a forward pass from some source of the network -/
+def SessGood (net : Net W) (se : Sess W) : Prop := ∀ st, se.flags = some st → ∃ s, s < net.n ∧ Good net s st
+
+/-- the source of the call is a node of the network -/
+def OpOk (net : Net W) : Op W → Prop
+  | .path s _ _ _ => correctInputNode s < net.n
+  | .dist s _ _ _ => correctInputNode s < net.n
+  | .fwd s _ _ _ => correctInputNode s < net.n
+  | .back _ => True
+
+omit [IsOrderedAddMonoid W] in
+theorem sessGood_start (net : Net W) : SessGood net (Sess.start : Sess W) := by
+  intro st h; cases h
+
+theorem sess_forward_good (net : Net W) (hnet : WFNet net) (se : Sess W) (s : NodeArg) (t : Option NodeArg)
+    (cut : Option W) (ud : Bool) (hs : correctInputNode s < net.n) : SessGood net (se.forward net s t cut ud) := by
+  intro st h
+  simp only [Sess.forward, Option.some.injEq] at h
+  subst h
+  exact ⟨correctInputNode s, hs, forward_good net hnet _ _ cut net.n _ [] (good_init net _ hs)⟩
+
+theorem stepOp_good (net : Net W) (hnet : WFNet net) (geo : GeoT) (order : List Nat) (se : Sess W) (op : Op W)
+    (hok : OpOk net op) (hse : SessGood net se) : SessGood net (stepOp net geo order se op).1 := by
+  cases op with
+  | path s t cut ud =>
+    have := sess_forward_good net hnet se s (some t) cut ud hok
+    simp only [stepOp]
+    split <;> exact this
+  | dist s t cut ud =>
+    have := sess_forward_good net hnet se s t cut ud hok
+    simp only [stepOp]
+    split <;> exact this
+  | fwd s t cut ud => exact sess_forward_good net hnet se s t cut ud hok
+  | back t =>
+    simp only [stepOp]
+    split <;> exact hse
+
+/-- what a `.path` output of a session must be: never a divergence; a returned track is the chain of a real route
+(from the source of the last search) closed by the position of its last node, without analytical feature, and the
+weights of the route's edges sum to the label reported with it -/
+def OutOk (net : Net W) (geo : GeoT) : Out W → Prop
+  | .path b label => b ≠ .diverge ∧ ∀ nodes trk, b = .path nodes trk →
+      ∃ s t l g g' y, nodes = l ++ [t] ∧ trk = ⟨g ++ [geo.pos t], []⟩ ∧ Route net geo.toGeo s l g g' t y ∧ label = some y
+  | _ => True
+
+theorem backward_out_ok (net : Net W) (hu : UniqueIds net) (geo : GeoT) (s : Nat) (st : St W) (hg : Good net s st)
+    (t : Nat) : OutOk net geo (.path (runBackwardT net geo st t) (st.d t)) := by
+  obtain ⟨h1, h2⟩ := runBackward_spec net hu geo.toGeo s st hg t
+  rw [runBackwardT_eq]
+  cases hp : st.pred t with
+  | none => rw [h1 hp]; exact ⟨fun h => (by cases h), fun _ _ h => by cases h⟩
+  | some p =>
+    obtain ⟨l, g, g', y, hd, hr, hb⟩ := h2 p hp
+    rw [hb]
+    refine ⟨fun h => (by cases h), fun nodes trk h => ?_⟩
+    simp only [liftBack, BackT.path.injEq] at h
+    obtain ⟨rfl, rfl⟩ := h
+    exact ⟨s, t, l, g, g', y, rfl, rfl, hr, hd⟩
+
+end session
+
 end TV.GraphExt
 
 /-! ### labels of settled nodes are final in EVERY state of the loop -/
